@@ -289,19 +289,27 @@ func c14Backtracking(w *World, r *Report, pa *pipelineAnchors, fa *factoryAnchor
 			ok, msg = false, "unexpected origin "+x.String()
 		default:
 			root, p := accessPath(x)
+			isDefault := false
 			if len(p) == 1 && root == fn.Params[0] {
 				// a factory field: the default rule's setting
 				if b, f := fieldLoad(x); f != nil && b == fn.Params[0] {
 					defaultFlag = f
-					continue
+					isDefault = true
 				}
 			}
 			// captured receiver inside select closures
-			if len(p) == 1 {
+			if !isDefault && len(p) == 1 {
 				if _, f := fieldLoad(x); f != nil && isBool(f.Type()) {
 					defaultFlag = f
-					continue
+					isDefault = true
 				}
+			}
+			if isDefault {
+				// the default's setting may be used only where the rule has no own setting
+				if !onlyVia(fn, s.At, nilOf(isOwn)) && !viaSelectFalse(w, fn, v, x, isOwn) {
+					ok, msg = false, "the default rule's backtracking setting can be used although the rule has its own backtracking_enabled setting (an explicit 'false' cannot switch off an inherited 'true')"
+				}
+				continue
 			}
 			ok, msg = false, "the flag can originate from "+x.String()
 		}
